@@ -9,6 +9,11 @@ The in-place forms are the same model functions with the destination as an opera
 (`axpyin(r,a,x) = axpy a x r`, … — see `Driver/ModRing.lean`), so they are covered by the same theorems.
 -/
 import GivaroModel.Lemmas.ModRingFloat
+import GivaroModel.Lemmas.ModRingHist
+import GivaroModel.Lemmas.ModRingFEuclid
+import GivaroModel.Lemmas.ModRingRecInt
+import GivaroModel.Lemmas.ModRingLog16
+import Mathlib.Tactic.IntervalCases
 namespace Givaro.Props.C03
 open Givaro.Model.ModRing Givaro.Spec.ModRing
 
@@ -136,7 +141,7 @@ theorem integral_div_exact (ha : isCanonU p a) (hb : isCanonU p b) (hu : Int.gcd
     isQuot false p a b (k.div p a b) = true ∧ k.divin p a b = k.div p a b := by
   obtain ⟨hi, hc⟩ := integral_inv_exact k hv p b hp hm hb hu
   have ok := iok_of_valid k hv p hp hm
-  have e1 : k.div p a b = (k.inv p b * a) % p := by unfold ICfg.div; exact mul_model ok hp hi ha
+  have e1 : k.div p a b = (k.inv p b * a) % p := by unfold ICfg.div; rw [mul_model ok hp ha hi, Int.mul_comm]
   have e2 : k.divin p a b = (a * k.inv p b) % p := by unfold ICfg.divin; exact mul_model ok hp ha hi
   refine ⟨?_, by rw [e1, e2, Int.mul_comm]⟩
   rw [e1]
@@ -463,5 +468,852 @@ theorem integer_ops_exact (p a b c : Int) (hp : 2 ≤ p) (ha : isCanonU p a) (hb
     rw [neg_emod_eq a p (by omega), Int.emod_eq_of_lt ha.1 ha.2]
     split <;> simp_all
 example : (2 : Int) ≤ 10 ∧ isCanonU 10 7 ∧ isCanonU 10 9 := by decide
+
+/-! ## inv / div / isUnit of the floating rings: the floating `extended_euclid` (signed cofactors)
+
+No cofactor and no product `q·v` ever exceeds the modulus in magnitude, so every intermediate is an
+exactly representable integer (the model's `fit`s never fail: the results are `some …`); the quotient
+`floor(u3/v3)` is the exact floor (IEEE hypothesis of the model, see the manifest note). -/
+
+theorem float_fsok (k : FCfg) (hv : k.valid) (p : Int) (hm : p ≤ k.maxCard) :
+    (∀ x, -p ≤ x → x ≤ p → k.fS x = some x) ∧ (2 ≤ p → p * p < (2 : Int) ^ (2 * k.ms + 3)) := by
+  obtain ⟨ms, mc⟩ := k
+  simp only [FCfg.valid] at hv
+  rcases hv with ⟨h1, h2⟩ | ⟨h1, h2⟩ | ⟨h1, h2⟩ <;> subst h1 <;> subst h2 <;>
+    simp only [FCfg.maxCard] at hm <;> norm_num at hm <;>
+    (refine ⟨?_, ?_⟩
+     · intro x hx0 hx1; simp only [FCfg.fS]; apply fit_some <;> norm_num <;> omega
+     · intro hp; norm_num; nlinarith)
+
+section floatingInv
+variable (k : FCfg) (hv : k.valid) (p a b : Int) (hp : 2 ≤ p) (hm : p ≤ k.maxCard)
+include hv hp hm
+
+theorem float_euclid_exact (ha : isCanonU p a) :
+    ∃ x d, k.euclid a p = some (x, d) ∧ d = (Int.gcd a p : Int) ∧ -p ≤ x ∧ x ≤ p ∧ p ∣ x * a - d
+      ∧ (d = 1 → -p < x ∧ x < p) := by
+  obtain ⟨h1, h2⟩ := float_fsok k hv p hm
+  unfold isCanonU at ha
+  exact feuclid_spec h1 ⟨by omega, ha.2⟩ hp (h2 hp)
+
+/-- inv / invin: canonical, `inv·a ≡ 1`, for every unit -/
+theorem float_inv_exact (ha : isCanonU p a) (hu : Int.gcd a p = 1) :
+    ∃ r, k.inv p a = some r ∧ isCanonU p r ∧ (r * a) % p = 1 % p := by
+  obtain ⟨x, d, he, hd, hx0, hx1, hdv, hd1⟩ := float_euclid_exact k hv p a hp hm ha
+  have hd' : d = 1 := by rw [hd, hu]; rfl
+  obtain ⟨hx2, hx3⟩ := hd1 hd'
+  rw [hd'] at hdv
+  obtain ⟨j, hj⟩ := hdv
+  obtain ⟨h1, _⟩ := float_fsok k hv p hm
+  unfold FCfg.inv
+  rw [he]
+  simp only [Option.bind_eq_bind, Option.bind_some]
+  by_cases hneg : x < 0
+  · rw [if_pos hneg, h1 _ (by omega) (by omega)]
+    refine ⟨x + p, rfl, ⟨by omega, by omega⟩, ?_⟩
+    have : (x + p) * a = 1 + p * (j + a) := by linarith
+    rw [this, Int.add_mul_emod_self_left]
+  · rw [if_neg hneg]
+    refine ⟨x, rfl, ⟨by omega, by omega⟩, ?_⟩
+    have : x * a = 1 + p * j := by linarith
+    rw [this, Int.add_mul_emod_self_left]
+
+/-- div / divin: the canonical `r` with `r·b ≡ a`, for every unit divisor -/
+theorem float_div_exact (ha : isCanonU p a) (hb : isCanonU p b) (hu : Int.gcd b p = 1) :
+    ∃ r, k.div p a b = some r ∧ k.divin p a b = some r ∧ isQuot false p a b r = true := by
+  obtain ⟨i, hi, hic, hi1⟩ := float_inv_exact k hv p b hp hm hb hu
+  refine ⟨canonU p (i * a), ?_, ?_, ?_⟩
+  · unfold FCfg.div; rw [hi]; simp only [Option.bind_eq_bind, Option.bind_some]
+    rw [float_mul_exact k hv p a i hp hm ha hic, Int.mul_comm]
+  · unfold FCfg.divin; rw [hi]; simp only [Option.bind_eq_bind, Option.bind_some]
+    rw [float_mul_exact k hv p a i hp hm ha hic, Int.mul_comm]
+  · unfold isQuot
+    simp only [decide_eq_true_eq, isCanon, Bool.false_eq_true, if_false]
+    refine ⟨canonU_isCanon p _ (by omega), ?_⟩
+    apply Int.emod_eq_zero_of_dvd
+    have h1 : p ∣ i * b - 1 := Int.dvd_of_emod_eq_zero (Int.emod_eq_emod_iff_emod_sub_eq_zero.1 hi1)
+    have h2 := Int.emod_add_mul_ediv (i * a) p
+    unfold canonU
+    have e : (i * a) % p * b - a = a * (i * b - 1) - p * ((i * a) / p * b) := by
+      have : (i * a) % p = i * a - p * ((i * a) / p) := by linarith
+      rw [this]; ring
+    rw [e]
+    exact Int.dvd_sub (Dvd.dvd.mul_left h1 _) (Int.dvd_mul_right _ _)
+
+/-- isUnit(a) ↔ gcd(a,p) = 1 -/
+theorem float_isUnit_iff_coprime (ha : isCanonU p a) :
+    ∃ u, k.isUnit p a = some u ∧ (u = true ↔ Int.gcd a p = 1) := by
+  obtain ⟨x, d, he, hd, _, _, _, _⟩ := float_euclid_exact k hv p a hp hm ha
+  refine ⟨(d == 1 || d == p - 1), ?_, ?_⟩
+  · unfold FCfg.isUnit; rw [he]; rfl
+  · simp only [Bool.or_eq_true, beq_iff_eq, hd]
+    constructor
+    · rintro (h | h)
+      · exact_mod_cast h
+      · have hdv : ((Int.gcd a p : Nat) : Int) ∣ p := Int.gcd_dvd_right a p
+        rw [h] at hdv
+        have : p - 1 ∣ 1 := by
+          have := Int.dvd_sub hdv (Int.dvd_refl (p - 1))
+          simpa using this
+        have := Int.le_of_dvd (by decide) this
+        have : p = 2 := by omega
+        subst this
+        have : ((Int.gcd a 2 : Nat) : Int) = 1 := by rw [h]; rfl
+        exact_mod_cast this
+    · intro h; left; rw [h]; rfl
+
+end floatingInv
+example : (FCfg.mk 53 53).inv 94906266 94906265 = some 94906265 ∧ Int.gcd 94906265 94906266 = 1 := by decide
+example : (FCfg.mk 24 53).isUnit 16777216 8388608 = some false ∧ (FCfg.mk 24 53).isUnit 16777216 8388609 = some true := by decide
+
+theorem balanced_float_fsok (k : BFCfg) (hv : k.valid) (p : Int) (hm : p ≤ k.maxCard) :
+    (∀ x, -p ≤ x → x ≤ p → (FCfg.mk k.mb k.mb).fS x = some x ∧ k.f x = some x)
+      ∧ (2 ≤ p → p * p < (2 : Int) ^ (2 * (FCfg.mk k.mb k.mb).ms + 3)) := by
+  obtain ⟨mb⟩ := k
+  simp only [BFCfg.valid] at hv
+  rcases hv with h1 | h1 <;> subst h1 <;>
+    simp only [BFCfg.maxCard] at hm <;> norm_num at hm <;>
+    (refine ⟨?_, ?_⟩
+     · intro x hx0 hx1; simp only [FCfg.fS, BFCfg.f]; constructor <;> apply fit_some <;> norm_num <;> omega
+     · intro hp; norm_num; nlinarith)
+
+section balancedFloatInv
+variable (k : BFCfg) (hv : k.valid) (p a b : Int) (hp : 3 ≤ p) (hm : p ≤ k.maxCard)
+include hv hp hm
+
+theorem balanced_float_euclid_exact (ha : isCanonB p a) :
+    ∃ x d, (FCfg.mk k.mb k.mb).euclid a p = some (x, d) ∧ d = (Int.gcd a p : Int) ∧ -p ≤ x ∧ x ≤ p ∧ p ∣ x * a - d
+      ∧ (d = 1 → -p < x ∧ x < p) := by
+  obtain ⟨h1, h2⟩ := balanced_float_fsok k hv p hm
+  unfold isCanonB at ha
+  exact feuclid_spec (fun x h0 h1' => (h1 x h0 h1').1) ⟨by omega, by omega⟩ (by omega) (h2 (by omega))
+
+/-- inv / invin of `ModularBalanced<float|double>` (the operand may be negative): canonical, `inv·a ≡ 1` -/
+theorem balanced_float_inv_exact (ha : isCanonB p a) (hu : Int.gcd a p = 1) :
+    ∃ r, k.inv p a = some r ∧ isQuot true p 1 a r = true := by
+  obtain ⟨x, d, he, hd, hx0, hx1, hdv, hd1⟩ := balanced_float_euclid_exact k hv p a hp hm ha
+  have hd' : d = 1 := by rw [hd, hu]; rfl
+  obtain ⟨hx2, hx3⟩ := hd1 hd'
+  rw [hd'] at hdv
+  obtain ⟨h1, _⟩ := balanced_float_fsok k hv p hm
+  have hc := Givaro.Model.ModRing.canonB_isCanon p x (by omega)
+  refine ⟨canonB p x, ?_, ?_⟩
+  · unfold BFCfg.inv
+    rw [he]
+    simp only [Option.bind_eq_bind, Option.bind_some]
+    rw [normB_canon (by omega) (by omega) (by omega)]
+    unfold isCanonB at hc
+    exact (h1 _ (by omega) (by omega)).2
+  · unfold isQuot
+    simp only [decide_eq_true_eq, isCanon, if_true]
+    refine ⟨hc, ?_⟩
+    apply Int.emod_eq_zero_of_dvd
+    have h2 := Int.dvd_of_emod_eq_zero (canonB_congr p x)
+    have e : canonB p x * a - 1 = (canonB p x - x) * a + (x * a - 1) := by ring
+    rw [e]; exact Int.dvd_add (Dvd.dvd.mul_right h2 _) hdv
+
+/-- div / divin of `ModularBalanced<float|double>` -/
+theorem balanced_float_div_exact (ha : isCanonB p a) (hb : isCanonB p b) (hu : Int.gcd b p = 1) :
+    ∃ r, k.div p a b = some r ∧ isQuot true p a b r = true := by
+  obtain ⟨i, hi, hq⟩ := balanced_float_inv_exact k hv p b hp hm hb hu
+  unfold isQuot at hq
+  simp only [decide_eq_true_eq, isCanon, if_true] at hq
+  refine ⟨canonB p (a * i), ?_, ?_⟩
+  · unfold BFCfg.div; rw [hi]; simp only [Option.bind_eq_bind, Option.bind_some]
+    exact balanced_float_mul_exact k hv p a i hp hm ha hq.1
+  · unfold isQuot
+    simp only [decide_eq_true_eq, isCanon, if_true]
+    refine ⟨canonB_isCanon p _ (by omega), ?_⟩
+    apply Int.emod_eq_zero_of_dvd
+    have h1 : p ∣ i * b - 1 := Int.dvd_of_emod_eq_zero hq.2
+    have h2 := Int.dvd_of_emod_eq_zero (canonB_congr p (a * i))
+    have e : canonB p (a * i) * b - a = (canonB p (a * i) - a * i) * b + a * (i * b - 1) := by ring
+    rw [e]; exact Int.dvd_add (Dvd.dvd.mul_right h2 _) (Dvd.dvd.mul_left h1 _)
+
+/-- isUnit of `ModularBalanced<float|double>` (`d == 1 || d == -1`, `d = gcd ≥ 0`) -/
+theorem balanced_float_isUnit_iff_coprime (ha : isCanonB p a) :
+    ∃ u, k.isUnit p a = some u ∧ (u = true ↔ Int.gcd a p = 1) := by
+  obtain ⟨x, d, he, hd, _, _, _, _⟩ := balanced_float_euclid_exact k hv p a hp hm ha
+  refine ⟨(d == 1 || d == -1), ?_, ?_⟩
+  · unfold BFCfg.isUnit; rw [he]; rfl
+  · simp only [Bool.or_eq_true, beq_iff_eq, hd]
+    constructor
+    · rintro (h | h)
+      · exact_mod_cast h
+      · have : (0 : Int) ≤ ((Int.gcd a p : Nat) : Int) := Int.natCast_nonneg _
+        omega
+    · intro h; left; rw [h]; rfl
+
+end balancedFloatInv
+example : (BFCfg.mk 53).inv 189812531 (-94906265) = some 2 := by decide
+
+/-! ## (f) `Modular<ruint<K>>`, `Modular<rint<K>>`, `Modular<ruint<K>,ruint<K+1>>` — every level K
+
+`k.n = 2^K` is any even number of bits ≥ 64 (`RCfg.valid`); the RecInt primitives are taken by their contracts
+over Z (C06).  Every body of modular-ruint.inl, the `inv_mod` loop of ruinvmod.h and the generic
+`extended_euclid<Element>` behind isUnit are exact for every modulus up to the `maxCardinality()` of the
+instantiation and all canonical operands. -/
+
+section recint
+variable (k : RCfg) (hv : k.valid) (p a b c : Int) (hp : 2 ≤ p) (hm : p ≤ k.maxCard)
+include hv hp hm
+
+theorem recint_add_exact (ha : isCanonU p a) (hb : isCanonU p b) : k.add p a b = canonU p (a + b) :=
+  radd_model (rok_of_valid k hv p hp hm) ha hb
+theorem recint_sub_exact (ha : isCanonU p a) (hb : isCanonU p b) :
+    k.sub p a b = canonU p (a - b) ∧ k.subin p a b = canonU p (a - b) :=
+  ⟨rsub_model (rok_of_valid k hv p hp hm) ha hb, rsubin_model (rok_of_valid k hv p hp hm) ha hb⟩
+theorem recint_neg_exact (ha : isCanonU p a) : k.neg p a = canonU p (-a) :=
+  rneg_model (rok_of_valid k hv p hp hm) ha
+/-- mul / mulin: `lmul` + `mod_n`, or `mul` in the element type (no wrap up to `2^(n/2)`) + `mod_n` -/
+theorem recint_mul_exact (ha : isCanonU p a) (hb : isCanonU p b) : k.mul p a b = canonU p (a * b) :=
+  rmul_model (rok_of_valid k hv p hp hm) ha hb
+theorem recint_axpy_exact (ha : isCanonU p a) (hb : isCanonU p b) (hc : isCanonU p c) :
+    k.axpy p a b c = canonU p (a * b + c) ∧ k.axpyin p c a b = canonU p (a * b + c) :=
+  ⟨raxpy_model (rok_of_valid k hv p hp hm) ha hb hc, raxpyin_model (rok_of_valid k hv p hp hm) hc ha hb⟩
+/-- axmy / axmyin (`axmyin(r,a,b)` is `axmy(r,a,b,copy of r)`) -/
+theorem recint_axmy_exact (ha : isCanonU p a) (hb : isCanonU p b) (hc : isCanonU p c) :
+    k.axmy p a b c = canonU p (a * b - c) :=
+  raxmy_model (rok_of_valid k hv p hp hm) ha hb hc
+theorem recint_maxpy_exact (ha : isCanonU p a) (hb : isCanonU p b) (hc : isCanonU p c) :
+    k.maxpy p a b c = canonU p (c - a * b) ∧ k.maxpyin p c a b = canonU p (c - a * b) :=
+  ⟨rmaxpy_model (rok_of_valid k hv p hp hm) ha hb hc, rmaxpyin_model (rok_of_valid k hv p hp hm) hc ha hb⟩
+
+/-- inv / invin through RecInt's `inv_mod` loop: canonical and `inv·a ≡ 1` for every unit -/
+theorem recint_inv_exact (ha : isCanonU p a) (hu : Int.gcd a p = 1) :
+    isCanonU p (k.inv p a) ∧ (k.inv p a * a) % p = 1 % p := by
+  obtain ⟨h0, h1, h2⟩ := rinv_spec (rok_of_valid k hv p hp hm) ha
+  refine ⟨⟨h0, h1⟩, ?_⟩
+  rw [hu] at h2
+  obtain ⟨j, hj⟩ := h2
+  have : k.inv p a * a = 1 + p * j := by push_cast at hj; linarith
+  rw [this, Int.add_mul_emod_self_left]
+
+/-- div / divin -/
+theorem recint_div_exact (ha : isCanonU p a) (hb : isCanonU p b) (hu : Int.gcd b p = 1) :
+    isQuot false p a b (k.div p a b) = true ∧ k.divin p a b = k.div p a b := by
+  obtain ⟨hi, hc⟩ := recint_inv_exact k hv p b hp hm hb hu
+  have ok := rok_of_valid k hv p hp hm
+  have e1 : k.div p a b = (k.inv p b * a) % p := by unfold RCfg.div; rw [rmul_model ok ha hi, Int.mul_comm]
+  have e2 : k.divin p a b = (a * k.inv p b) % p := by unfold RCfg.divin; exact rmul_model ok ha hi
+  refine ⟨?_, by rw [e1, e2, Int.mul_comm]⟩
+  rw [e1]
+  unfold isQuot
+  simp only [decide_eq_true_eq, isCanon, Bool.false_eq_true, if_false]
+  refine ⟨canonU_isCanon p _ (by omega), ?_⟩
+  apply Int.emod_eq_zero_of_dvd
+  have h1 : p ∣ k.inv p b * b - 1 := Int.dvd_of_emod_eq_zero (Int.emod_eq_emod_iff_emod_sub_eq_zero.1 hc)
+  have h2 := Int.emod_add_mul_ediv (k.inv p b * a) p
+  have e : (k.inv p b * a) % p * b - a = a * (k.inv p b * b - 1) - p * ((k.inv p b * a) / p * b) := by
+    have : (k.inv p b * a) % p = k.inv p b * a - p * ((k.inv p b * a) / p) := by linarith
+    rw [this]; ring
+  rw [e]
+  exact Int.dvd_sub (Dvd.dvd.mul_left h1 _) (Int.dvd_mul_right _ _)
+
+/-- isUnit (`Modular_implem::isUnit` over the RecInt element type) ↔ gcd(a,p) = 1 -/
+theorem recint_isUnit_iff_coprime (ha : isCanonU p a) : k.isUnit p a = true ↔ Int.gcd a p = 1 := by
+  have ok := rok_of_valid k hv p hp hm
+  have eok := reok ok hv
+  have hE : k.asI.toE p = p := by
+    have := ok.wp (by omega : (0 : Int) ≤ p) (Int.le_refl p)
+    unfold RCfg.w at this
+    exact this
+  rw [hE] at eok
+  obtain ⟨h1, _, _, _⟩ := euclid_spec eok ha hp
+  have hmo : k.asI.mOne p = p - 1 := by
+    have hn : ¬ k.asI.s < 32 := by have := hv.1; simp [RCfg.asI]; omega
+    unfold ICfg.mOne ICfg.arU
+    rw [if_neg hn]
+    have h2 : wrapUw k.asI.s (p - 1) = p - 1 := wrapUw_id (by omega) (by have := ok.pn; simp [RCfg.asI]; omega)
+    rw [h2]
+    have := ok.wp (by omega : (0 : Int) ≤ p - 1) (by omega)
+    unfold RCfg.w at this
+    exact this
+  unfold RCfg.isUnit ICfg.isUnit
+  rw [hE]
+  simp only [h1, hmo, Bool.or_eq_true, beq_iff_eq]
+  constructor
+  · rintro (h | h)
+    · exact_mod_cast h
+    · have hd : ((Int.gcd a p : Nat) : Int) ∣ p := Int.gcd_dvd_right a p
+      rw [h] at hd
+      have : p - 1 ∣ 1 := by
+        have := Int.dvd_sub hd (Int.dvd_refl (p - 1))
+        simpa using this
+      have := Int.le_of_dvd (by decide) this
+      have : p = 2 := by omega
+      subst this
+      have : ((Int.gcd a 2 : Nat) : Int) = 1 := by rw [h]; rfl
+      exact_mod_cast this
+  · intro h; left; rw [h]; rfl
+
+/-- init from an `Integer` of any size and sign (C04 for the RecInt rings) -/
+theorem recint_initZ_exact (x : Int) : k.initZ p x = canonU p x := by
+  have ok := rok_of_valid k hv p hp hm
+  unfold RCfg.initZ canonU
+  exact ok.wp (Int.emod_nonneg _ (by omega)) (Int.le_of_lt (Int.emod_lt_of_pos _ (by omega)))
+
+/-- reduce(x, y) of the RecInt rings for any value `y` the element type holds (non-negative for `ruint`) -/
+theorem recint_reduce_exact (y : Int) (hy : k.sg = false → 0 ≤ y) : k.reduce p y = canonU p y := by
+  have ok := rok_of_valid k hv p hp hm
+  obtain ⟨hc, h0, h1, h2⟩ := tmod_cases y p (by omega)
+  have ht : Int.tmod y p < p := by rcases hc with h | h <;> omega
+  unfold RCfg.reduce canonU
+  split
+  · next hsg =>
+    simp only
+    by_cases hneg : Int.tmod y p < 0
+    · rw [ok.w_neg _ (by omega) hneg hsg, if_pos hneg]
+      have hf := tmod_fix y p (by omega)
+      rw [if_pos hneg] at hf
+      rw [hf]; exact ok.wp (Int.emod_nonneg _ (by omega)) (by omega)
+    · rw [ok.wp (by omega) (by omega), if_neg hneg]
+      have hf := tmod_fix y p (by omega)
+      rw [if_neg hneg] at hf
+      exact hf
+  · next hsg =>
+    have hy0 : 0 ≤ y := hy (by cases h : k.sg <;> simp_all)
+    rw [Int.tmod_eq_emod_of_nonneg hy0]
+    exact ok.wp (Int.emod_nonneg _ (by omega)) (Int.le_of_lt (Int.emod_lt_of_pos _ (by omega)))
+
+/-- init from a machine integer (`int64_t` / `uint64_t` range) whose magnitude the element type holds
+    (the overload condition of modular-ruint.h), the minimum of the signed type included -/
+theorem recint_init_exact (x : Int) (hx : -((2 : Int) ^ 63) ≤ x ∧ x < (2 : Int) ^ 64)
+    (hfit : k.sg = true → -((2 : Int) ^ (k.n - 1)) < x ∧ x < (2 : Int) ^ (k.n - 1)) :
+    k.initInt p x = canonU p x := by
+  have ok := rok_of_valid k hv p hp hm
+  have hua : wrapUw 64 (if x < 0 then wrapUw 64 (0 - wrapUw 64 x) else x) = if x < 0 then -x else x := by
+    unfold wrapUw; norm_num at hx ⊢
+    split <;> omega
+  have hn := hv.1
+  have hp64 : (2 : Int) ^ 64 ≤ (2 : Int) ^ k.n := pow_le_pow_right₀ (by norm_num) hn
+  have hw : k.w (if x < 0 then -x else x) = if x < 0 then -x else x := by
+    unfold RCfg.w
+    split
+    · next hsg =>
+      have := hfit hsg
+      exact wrapSw_id (by omega) (by split <;> omega) (by split <;> omega)
+    · exact wrapUw_id (by split <;> omega) (by norm_num at hx; split <;> omega)
+  unfold RCfg.initInt
+  simp only
+  rw [hua, hw, recint_reduce_exact k hv p hp hm _ (fun _ => by split <;> omega)]
+  unfold canonU
+  by_cases hneg : x < 0
+  · rw [if_pos hneg, if_pos hneg, rneg_model ok ⟨Int.emod_nonneg _ (by omega), Int.emod_lt_of_pos _ (by omega)⟩]
+    have h := Int.emod_add_mul_ediv (-x) p
+    have e : -((-x) % p) = x + p * ((-x) / p) := by linarith
+    rw [e, Int.add_mul_emod_self_left]
+  · rw [if_neg hneg, if_neg hneg]
+
+theorem recint_exactOps : ExactOps (k.ops p) (canonU p) (isCanonU p) where
+  cn_ok x := canonU_isCanon p x (by omega)
+  add a b ha hb := by simp only [RCfg.ops]; rw [recint_add_exact k hv p a b hp hm ha hb]
+  sub a b ha hb := by simp only [RCfg.ops]; rw [(recint_sub_exact k hv p a b hp hm ha hb).1]
+  mul a b ha hb := by simp only [RCfg.ops]; rw [recint_mul_exact k hv p a b hp hm ha hb]
+  neg a ha := by simp only [RCfg.ops]; rw [recint_neg_exact k hv p a hp hm ha]
+  axpy a x y ha hx hy := by simp only [RCfg.ops]; rw [(recint_axpy_exact k hv p a x y hp hm ha hx hy).1]
+  axmy a x y ha hx hy := by simp only [RCfg.ops]; rw [recint_axmy_exact k hv p a x y hp hm ha hx hy]
+  maxpy a x y ha hx hy := by simp only [RCfg.ops]; rw [(recint_maxpy_exact k hv p a x y hp hm ha hx hy).1]
+  axpyin r a x hr ha hx := by simp only [RCfg.ops]; rw [(recint_axpy_exact k hv p a x r hp hm ha hx hr).2]
+  axmyin r a x hr ha hx := by simp only [RCfg.ops]; rw [recint_axmy_exact k hv p a x r hp hm ha hx hr]
+  maxpyin r a x hr ha hx := by simp only [RCfg.ops]; rw [(recint_maxpy_exact k hv p a x r hp hm ha hx hr).2]
+  addin r a hr ha := by simp only [RCfg.ops]; rw [recint_add_exact k hv p r a hp hm hr ha]
+  subin r a hr ha := by simp only [RCfg.ops]; rw [(recint_sub_exact k hv p r a hp hm hr ha).2]
+  mulin r a hr ha := by simp only [RCfg.ops]; rw [recint_mul_exact k hv p r a hp hm hr ha]
+  negin r hr := by simp only [RCfg.ops]; rw [recint_neg_exact k hv p r hp hm hr]
+
+/-- **history theorem** for the RecInt-backed rings -/
+theorem recint_history_exact (prog : List Instr) (r : Regs) (hr : ∀ i, isCanonU p (r i)) :
+    (k.ops p).run prog r = some (runZ (canonU p) prog r) ∧ ∀ i, isCanonU p (runZ (canonU p) prog r i) :=
+  run_exact (recint_exactOps k hv p hp hm) prog r hr
+
+end recint
+example : (RCfg.mk 128 false false).valid ∧ (18446744073709551616 : Int) ≤ (RCfg.mk 128 false false).maxCard := by decide
+example : (RCfg.mk 128 false false).inv 18446744073709551616 18446744073709551615 = 18446744073709551615 := by decide
+example : (RCfg.mk 64 false false).mul 4294967297 4294967296 4294967296 ≠ canonU 4294967297 (4294967296 * 4294967296) := by decide
+example : (RCfg.mk 128 true false).valid ∧ (13043817821140680704 : Int) ≤ (RCfg.mk 128 true false).maxCard := by decide
+
+/-! ## (d) `ModularExtended<float|double>` (FMA path)
+
+add / sub / neg / inv / isUnit at full strength.  mul (hence axpy…, div, histories) under the **FMA contract**:
+`abh` is within `2^(mant-4)` of the product (any rounding to the mantissa of a product below `2^(2·mant-6)` is)
+and the floating quotient estimate `q = floor(abh·(1/p))` is within one of the true quotient
+(`-p ≤ a·b − q·p < 2p`).  Given the contract, `abl = a·b − abh`, `pql = abh − q·p` and `r = abl + pql` are exact
+and ONE correction yields the canonical residue — for every `p ≤ 2^(mant-3) − 1 = maxCardinality()`.
+That the IEEE operations meet the contract is tied by correspondence (soft-float model, both build configurations). -/
+
+structure ExtContract (k : ECfg) (p q a b : Int) : Prop where
+  split0 : -((2 : Int) ^ (k.mant - 4)) ≤ a * b - k.rneI (a * b)
+  split1 : a * b - k.rneI (a * b) ≤ (2 : Int) ^ (k.mant - 4)
+  close0 : -p ≤ a * b - q * p
+  close1 : a * b - q * p < 2 * p
+
+theorem ext_fit (k : ECfg) (hv : k.valid) (p : Int) (hm : p ≤ k.maxCard) (x : Int)
+    (h0 : -(4 * p + (2 : Int) ^ (k.mant - 4)) ≤ x) (h1 : x ≤ 4 * p + (2 : Int) ^ (k.mant - 4)) : k.f x = some x := by
+  obtain ⟨m⟩ := k
+  simp only [ECfg.valid] at hv
+  rcases hv with h | h <;> subst h <;> simp only [ECfg.maxCard] at hm <;> norm_num at hm h0 h1 <;>
+    simp only [ECfg.f] <;> apply fit_some <;> norm_num <;> omega
+
+section extended
+variable (k : ECfg) (hv : k.valid) (p a b : Int) (hp : 2 ≤ p) (hm : p ≤ k.maxCard)
+include hv hp hm
+
+theorem extended_correct (r z : Int) (hr0 : -p ≤ r) (hr1 : r < 2 * p) (j : Int) (hz : z = r + p * j) :
+    (if r ≥ p then k.f (r - p) else if r < 0 then k.f (r + p) else some r) = some (z % p) := by
+  have hpow : (0 : Int) ≤ (2 : Int) ^ (k.mant - 4) := by positivity
+  have hf := fun x h0 h1 => ext_fit k hv p hm x h0 h1
+  split
+  · rw [hf _ (by omega) (by omega)]; congr 1
+    exact (emod_unique (by omega) (by omega) (j + 1) (by rw [hz]; ring)).symm
+  · split
+    · rw [hf _ (by omega) (by omega)]; congr 1
+      exact (emod_unique (by omega) (by omega) (j - 1) (by rw [hz]; ring)).symm
+    · congr 1
+      exact (emod_unique (by omega) (by omega) j hz).symm
+
+/-- mul with ANY quotient estimate meeting the contract -/
+theorem extended_mulQ_exact_partial (q : Int) (hc : ExtContract k p q a b) :
+    k.mulQ p q a b = some (canonU p (a * b)) := by
+  have hpow : (0 : Int) ≤ (2 : Int) ^ (k.mant - 4) := by positivity
+  have hf := fun x h0 h1 => ext_fit k hv p hm x h0 h1
+  obtain ⟨s0, s1, c0, c1⟩ := hc
+  unfold ECfg.mulQ canonU
+  simp only
+  generalize k.rneI (a * b) = abh at *
+  rw [hf (abh - q * p) (by omega) (by omega)]
+  simp only [Option.bind_eq_bind, Option.bind_some]
+  have e : a * b - abh + (abh - q * p) = a * b - q * p := by ring
+  rw [e, hf _ (by omega) (by omega)]
+  simp only [Option.bind_some]
+  exact extended_correct k hv p hp hm _ _ c0 c1 q (by ring)
+
+theorem extended_add_sub_neg_exact (ha : isCanonU p a) (hb : isCanonU p b) :
+    k.add p a b = some (canonU p (a + b)) ∧ k.sub p a b = some (canonU p (a - b)) ∧ k.neg p a = some (canonU p (-a)) := by
+  have hpow : (0 : Int) ≤ (2 : Int) ^ (k.mant - 4) := by positivity
+  have hf := fun x h0 h1 => ext_fit k hv p hm x h0 h1
+  unfold isCanonU at ha hb
+  unfold ECfg.add ECfg.sub ECfg.neg canonU
+  rw [hf (a + b) (by omega) (by omega), hf (a - b) (by omega) (by omega)]
+  simp only [Option.bind_eq_bind, Option.bind_some]
+  refine ⟨?_, ?_, ?_⟩
+  · split
+    · rw [hf _ (by omega) (by omega)]; congr 1
+      exact (emod_unique (by omega) (by omega) 1 (by ring)).symm
+    · congr 1; exact (Int.emod_eq_of_lt (by omega) (by omega)).symm
+  · split
+    · rw [hf _ (by omega) (by omega)]; congr 1
+      exact (emod_unique (by omega) (by omega) (-1) (by ring)).symm
+    · congr 1; exact (Int.emod_eq_of_lt (by omega) (by omega)).symm
+  · split
+    · rw [hf _ (by omega) (by omega)]; congr 1
+      exact (emod_unique (by omega) (by omega) (-1) (by ring)).symm
+    · congr 1
+      have : a = 0 := by omega
+      subst this; simp
+
+theorem ext_fsok : (∀ x, -p ≤ x → x ≤ p → (FCfg.mk k.mant k.mant).fS x = some x)
+    ∧ p * p < (2 : Int) ^ (2 * (FCfg.mk k.mant k.mant).ms + 3) := by
+  obtain ⟨m⟩ := k
+  simp only [ECfg.valid] at hv
+  rcases hv with h | h <;> subst h <;> simp only [ECfg.maxCard] at hm <;> norm_num at hm <;>
+    (refine ⟨?_, ?_⟩
+     · intro x hx0 hx1; simp only [FCfg.fS]; apply fit_some <;> norm_num <;> omega
+     · norm_num; nlinarith)
+
+/-- inv / invin of `ModularExtended` (floating Euclid): canonical, `inv·a ≡ 1`, every unit, every `p ≤ maxCardinality` -/
+theorem extended_inv_exact (ha : isCanonU p a) (hu : Int.gcd a p = 1) :
+    ∃ r, k.inv p a = some r ∧ isCanonU p r ∧ (r * a) % p = 1 % p := by
+  obtain ⟨h1, h2⟩ := ext_fsok k hv p hp hm
+  unfold isCanonU at ha
+  obtain ⟨x, d, he, hd, hx0, hx1, hdv, hd1⟩ := feuclid_spec h1 ⟨by omega, ha.2⟩ hp h2
+  have hd' : d = 1 := by rw [hd, hu]; rfl
+  obtain ⟨hx2, hx3⟩ := hd1 hd'
+  rw [hd'] at hdv
+  obtain ⟨j, hj⟩ := hdv
+  unfold ECfg.inv FCfg.inv
+  rw [he]
+  simp only [Option.bind_eq_bind, Option.bind_some]
+  by_cases hneg : x < 0
+  · rw [if_pos hneg, h1 _ (by omega) (by omega)]
+    refine ⟨x + p, rfl, ⟨by omega, by omega⟩, ?_⟩
+    have : (x + p) * a = 1 + p * (j + a) := by linarith
+    rw [this, Int.add_mul_emod_self_left]
+  · rw [if_neg hneg]
+    refine ⟨x, rfl, ⟨by omega, by omega⟩, ?_⟩
+    have : x * a = 1 + p * j := by linarith
+    rw [this, Int.add_mul_emod_self_left]
+
+/-- isUnit of `ModularExtended` ↔ gcd(a,p) = 1 -/
+theorem extended_isUnit_iff_coprime (ha : isCanonU p a) :
+    ∃ u, k.isUnit p a = some u ∧ (u = true ↔ Int.gcd a p = 1) := by
+  obtain ⟨h1, h2⟩ := ext_fsok k hv p hp hm
+  unfold isCanonU at ha
+  obtain ⟨x, d, he, hd, _, _, _, _⟩ := feuclid_spec h1 ⟨by omega, ha.2⟩ hp h2
+  refine ⟨(d == 1 || d == p - 1), ?_, ?_⟩
+  · unfold ECfg.isUnit FCfg.isUnit; rw [he]; rfl
+  · simp only [Bool.or_eq_true, beq_iff_eq, hd]
+    constructor
+    · rintro (h | h)
+      · exact_mod_cast h
+      · have hdv : ((Int.gcd a p : Nat) : Int) ∣ p := Int.gcd_dvd_right a p
+        rw [h] at hdv
+        have : p - 1 ∣ 1 := by
+          have := Int.dvd_sub hdv (Int.dvd_refl (p - 1))
+          simpa using this
+        have := Int.le_of_dvd (by decide) this
+        have : p = 2 := by omega
+        subst this
+        have : ((Int.gcd a 2 : Nat) : Int) = 1 := by rw [h]; rfl
+        exact_mod_cast this
+    · intro h; left; rw [h]; rfl
+
+/-- the contract for the quotient estimate the code computes, on all canonical operands -/
+def ExtQClose : Prop :=
+  ∀ a b, isCanonU p a → isCanonU p b → ExtContract k p (k.qEst p (k.rneI (a * b))) a b
+
+theorem extended_exactOps_partial (hq : ExtQClose k p) : ExactOps (k.ops p) (canonU p) (isCanonU p) := by
+  have hmul : ∀ a b, isCanonU p a → isCanonU p b → k.mul p a b = some (canonU p (a * b)) := fun a b ha hb => by
+    unfold ECfg.mul; exact extended_mulQ_exact_partial k hv p a b hp hm _ (hq a b ha hb)
+  have hc : ∀ x, isCanonU p (canonU p x) := fun x => canonU_isCanon p x (by omega)
+  have hasn := fun a b ha hb => extended_add_sub_neg_exact k hv p a b hp hm ha hb
+  have haxpy : ∀ a x y, isCanonU p a → isCanonU p x → isCanonU p y → k.axpy p a x y = some (canonU p (a * x + y)) := by
+    intro a x y ha hx hy
+    unfold ECfg.axpy; rw [hmul a x ha hx]; simp only [Option.bind_eq_bind, Option.bind_some]
+    rw [(hasn _ y (hc _) hy).1]; unfold canonU; rw [Int.emod_add_emod]
+  have haxmy : ∀ a x y, isCanonU p a → isCanonU p x → isCanonU p y → k.axmy p a x y = some (canonU p (a * x - y)) := by
+    intro a x y ha hx hy
+    unfold ECfg.axmy; rw [hmul a x ha hx]; simp only [Option.bind_eq_bind, Option.bind_some]
+    rw [(hasn _ y (hc _) hy).2.1]; unfold canonU; rw [Int.emod_sub_emod]
+  have hmaxpy : ∀ a x y, isCanonU p a → isCanonU p x → isCanonU p y → k.maxpy p a x y = some (canonU p (y - a * x)) := by
+    intro a x y ha hx hy
+    unfold ECfg.maxpy; rw [hmul a x ha hx]; simp only [Option.bind_eq_bind, Option.bind_some]
+    rw [(hasn y _ hy (hc _)).2.1]; unfold canonU; rw [Int.sub_emod_emod]
+  exact {
+    cn_ok := hc
+    add := fun a b ha hb => (hasn a b ha hb).1
+    sub := fun a b ha hb => (hasn a b ha hb).2.1
+    mul := hmul
+    neg := fun a ha => (hasn a a ha ha).2.2
+    axpy := haxpy, axmy := haxmy, maxpy := hmaxpy
+    axpyin := fun r a x hr ha hx => haxpy a x r ha hx hr
+    axmyin := fun r a x hr ha hx => haxmy a x r ha hx hr
+    maxpyin := fun r a x hr ha hx => hmaxpy a x r ha hx hr
+    addin := fun a b ha hb => (hasn a b ha hb).1
+    subin := fun a b ha hb => (hasn a b ha hb).2.1
+    mulin := hmul
+    negin := fun a ha => (hasn a a ha ha).2.2 }
+
+/-- **history theorem** for `ModularExtended`, under the FMA contract (full statement: without `hq`) -/
+theorem extended_history_exact_partial (hq : ExtQClose k p) (prog : List Instr) (r : Regs) (hr : ∀ i, isCanonU p (r i)) :
+    (k.ops p).run prog r = some (runZ (canonU p) prog r) ∧ ∀ i, isCanonU p (runZ (canonU p) prog r i) :=
+  run_exact (extended_exactOps_partial k hv p hp hm hq) prog r hr
+
+end extended
+example : (ECfg.mk 53).mul 1125899906842623 1125899906842622 1125899906842622 = some 1 := by decide
+example : ExtContract (ECfg.mk 53) 1125899906842623 ((ECfg.mk 53).qEst 1125899906842623 ((ECfg.mk 53).rneI (1125899906842622 * 1125899906842622)))
+    1125899906842622 1125899906842622 := by
+  refine ⟨by decide, by decide, by decide, by decide⟩
+
+/-! ## (g) `Modular<Log16>`: the generator chain is a parameter
+
+For ANY tables `exp`, `log` satisfying `L16.Valid` (what the constructor's generator search establishes for a
+prime `p`: `exp` walks through (Z/p)^* along the powers of `g`, `log` inverts it, `log 0 = zero`), the index
+arithmetic of every `__GIVARO_ZPZ16_LOG_*` macro on canonical representations (`okR`: a logarithm in `[0,p-1)` or
+`zero = 2(p-1)`) returns the canonical representation of the exact result.  `g^((p-1)/2) = -1` is derived from the
+chain, not assumed. -/
+
+section log16
+variable (T : L16) (h : T.Valid) (a b c : Int)
+include h
+
+theorem log16_mul_exact (ha : T.okR a) (hb : T.okR b) :
+    T.okR (T.mul a b) ∧ T.val (T.mul a b) = canonU T.p (T.val a * T.val b) := L16.mul_exact h ha hb
+theorem log16_add_exact (ha : T.okR a) (hb : T.okR b) :
+    T.okR (T.add a b) ∧ T.val (T.add a b) = canonU T.p (T.val a + T.val b) := L16.add_exact h ha hb
+theorem log16_sub_exact (ha : T.okR a) (hb : T.okR b) :
+    T.okR (T.sub a b) ∧ T.val (T.sub a b) = canonU T.p (T.val a - T.val b) := L16.sub_exact h ha hb
+theorem log16_neg_exact (ha : T.okR a) :
+    T.okR (T.neg a) ∧ T.val (T.neg a) = canonU T.p (-(T.val a)) := L16.neg_exact h ha
+/-- inv / div for a non-zero divisor -/
+theorem log16_inv_div_exact (ha : T.okR a) (hb : 0 ≤ b ∧ b < T.M) :
+    (T.okR (T.inv b) ∧ (T.val (T.inv b) * T.val b) % T.p = 1 % T.p)
+    ∧ (T.okR (T.div a b) ∧ (T.val (T.div a b) * T.val b) % T.p = T.val a % T.p) :=
+  ⟨⟨Or.inl (L16.inv_exact h hb).1, (L16.inv_exact h hb).2⟩, L16.div_exact h ha hb⟩
+
+theorem log16_val_range (ha : T.okR a) : isCanonU T.p (T.val a) := by
+  rcases ha with ha | ha
+  · rw [L16.val_nonzero h ha.1 ha.2]
+    have := L16.expm_range h a
+    exact ⟨by omega, this.2⟩
+  · rw [ha, L16.val_Z h]; have := h.p2; exact ⟨Int.le_refl _, by omega⟩
+
+/-- axpy, axpyin, axmy, axmyin, maxpy, maxpyin (compositions of the macros, as the code writes them) -/
+theorem log16_fused_exact (ha : T.okR a) (hb : T.okR b) (hc : T.okR c) :
+    (T.okR (T.axpy a b c) ∧ T.val (T.axpy a b c) = canonU T.p (T.val a * T.val b + T.val c))
+    ∧ (T.okR (T.axpyin c a b) ∧ T.val (T.axpyin c a b) = canonU T.p (T.val a * T.val b + T.val c))
+    ∧ (T.okR (T.axmy a b c) ∧ T.val (T.axmy a b c) = canonU T.p (T.val a * T.val b - T.val c))
+    ∧ (T.okR (T.axmyin c a b) ∧ T.val (T.axmyin c a b) = canonU T.p (T.val a * T.val b - T.val c))
+    ∧ (T.okR (T.maxpy a b c) ∧ T.val (T.maxpy a b c) = canonU T.p (T.val c - T.val a * T.val b))
+    ∧ (T.okR (T.maxpyin c a b) ∧ T.val (T.maxpyin c a b) = canonU T.p (T.val c - T.val a * T.val b)) := by
+  obtain ⟨hm, hmv⟩ := L16.mul_exact h ha hb
+  obtain ⟨h1, h1v⟩ := L16.add_exact h hm hc
+  obtain ⟨h2, h2v⟩ := L16.add_exact h hc hm
+  obtain ⟨h3, h3v⟩ := L16.sub_exact h hm hc
+  obtain ⟨h4, h4v⟩ := L16.sub_exact h hc hm
+  unfold canonU
+  refine ⟨⟨h1, ?_⟩, ⟨h2, ?_⟩, ⟨h3, ?_⟩, ⟨h3, ?_⟩, ⟨h4, ?_⟩, ⟨h4, ?_⟩⟩
+  · show T.val (T.add (T.mul a b) c) = _
+    rw [h1v, hmv, Int.emod_add_emod]
+  · show T.val (T.add c (T.mul a b)) = _
+    rw [h2v, hmv, Int.add_emod_emod, Int.add_comm]
+  · show T.val (T.sub (T.mul a b) c) = _
+    rw [h3v, hmv, Int.emod_sub_emod]
+  · show T.val (T.sub (T.mul a b) c) = _
+    rw [h3v, hmv, Int.emod_sub_emod]
+  · show T.val (T.sub c (T.mul a b)) = _
+    rw [h4v, hmv, Int.sub_emod_emod]
+  · show T.val (T.sub c (T.mul a b)) = _
+    rw [h4v, hmv, Int.sub_emod_emod]
+
+/-- isUnit (`!isZero`) holds exactly for the elements that have an inverse -/
+theorem log16_isUnit_iff (ha : T.okR a) :
+    T.isUnit a = true ↔ ∃ r, T.okR r ∧ (T.val r * T.val a) % T.p = 1 % T.p := by
+  have hp := h.p2
+  have hMd : T.M = T.p - 1 := rfl
+  have hZ : T.Z = 2 * T.M := rfl
+  unfold L16.isUnit L16.isZero
+  rcases ha with ha | ha
+  · simp only [Bool.not_eq_true', decide_eq_false_iff_not]
+    constructor
+    · intro _; exact ⟨T.inv a, Or.inl (L16.inv_exact h ha).1, (L16.inv_exact h ha).2⟩
+    · intro _; omega
+  · simp only [Bool.not_eq_true', decide_eq_false_iff_not]
+    constructor
+    · intro hc; exfalso; omega
+    · rintro ⟨r, _, hr⟩
+      rw [ha, L16.val_Z h, Int.mul_zero, Int.zero_emod, Int.emod_eq_of_lt (by omega) (by omega)] at hr
+      omega
+
+end log16
+
+/-- non-vacuity: the chain of `p = 5`, `g = 2` is valid -/
+def t5 : L16 := ⟨5, 2, fun e => if e = 0 then 1 else if e = 1 then 2 else if e = 2 then 4 else 3,
+  fun v => if v = 0 then 8 else if v = 1 then 0 else if v = 2 then 1 else if v = 4 then 2 else 3⟩
+example : t5.Valid := by
+  refine ⟨by decide, by decide, ?_, ?_, ?_, ?_, by decide⟩
+  · intro e h0 h1; have : e < 4 := h1; interval_cases e <;> decide
+  · intro e h0 h1; have : e < 4 := h1; interval_cases e <;> decide
+  · intro e h0 h1; have : e < 4 := h1; interval_cases e <;> decide
+  · intro v h0 h1; have : v < 5 := h1; interval_cases v <;> decide
+example : t5.add 1 3 = 8 ∧ t5.val (t5.sub 0 3) = 3 ∧ t5.neg 8 = 8 := by decide
+
+/-! ## histories: programs of any length over add/sub/neg/mul/axpy/axmy/maxpy and all in-place forms
+
+A program is a list of API calls on a register file (sources may coincide; an in-place form updates its
+first operand).  Running it on the ring's representation with the model of the ring's code gives, for
+EVERY program, exactly what running it on plain residues gives (`runZ`: exact integer operation then
+the canonical map) — by induction over the program from the per-operation theorems above. -/
+
+section floating2
+variable (k : FCfg) (hv : k.valid) (p r a x : Int) (hp : 2 ≤ p) (hm : p ≤ k.maxCard)
+include hv hp hm
+
+/-- maxpyin(r,a,x): `tmp = a*x + (p - r)`, `tmp < p ? tmp : fmod(tmp,p)`, negin -/
+theorem float_maxpyin_exact (hr : isCanonU p r) (ha : isCanonU p a) (hx : isCanonU p x) :
+    k.maxpyin p r a x = some (canonU p (r - a * x)) := by
+  have ok := fok_of_valid k hv p hp hm
+  have hab := mul_lt_sq hp ha hx
+  unfold isCanonU at hr
+  have h1 : (p - 1) * (p - 1) + p ≤ p * (p - 1) + 1 := by nlinarith
+  have h2 : p ≤ p * (p - 1) + 1 := by nlinarith
+  unfold FCfg.maxpyin
+  rw [ok.fC_id (a * x) hab.1 (by omega)]
+  simp only [Option.bind_eq_bind, Option.bind_some]
+  rw [ok.fC_id (p - r) (by omega) (by omega)]
+  simp only [Option.bind_some]
+  rw [ok.fC_id (a * x + (p - r)) (by omega) (by omega)]
+  simp only [Option.bind_some]
+  have hv' : (if a * x + (p - r) < p then a * x + (p - r) else Int.tmod (a * x + (p - r)) p) = (a * x - r) % p := by
+    have e : a * x + (p - r) = (a * x - r) + p * 1 := by ring
+    split
+    · rw [← Int.emod_eq_of_lt (by omega : 0 ≤ a * x + (p - r)) (by assumption), e, Int.add_mul_emod_self_left]
+    · rw [Int.tmod_eq_emod_of_nonneg (by omega), e, Int.add_mul_emod_self_left]
+  rw [hv']
+  have h0 := Int.emod_nonneg (a * x - r) (by omega : p ≠ 0)
+  have h3 := Int.emod_lt_of_pos (a * x - r) (by omega : 0 < p)
+  rw [ok.fS_id _ h0 (by omega)]
+  simp only [Option.bind_some]
+  rw [float_neg_exact k hv p _ hp hm ⟨h0, h3⟩]
+  unfold canonU
+  have h := Int.emod_add_mul_ediv (a * x - r) p
+  have e : -((a * x - r) % p) = (r - a * x) + p * ((a * x - r) / p) := by linarith
+  rw [e, Int.add_mul_emod_self_left]
+
+/-- axmyin(r,a,x): maxpyin then negin -/
+theorem float_axmyin_exact (hr : isCanonU p r) (ha : isCanonU p a) (hx : isCanonU p x) :
+    k.axmyin p r a x = some (canonU p (a * x - r)) := by
+  unfold FCfg.axmyin
+  rw [float_maxpyin_exact k hv p r a x hp hm hr ha hx]
+  simp only [Option.bind_eq_bind, Option.bind_some]
+  rw [float_neg_exact k hv p _ hp hm (canonU_isCanon p _ (by omega))]
+  unfold canonU
+  have h := Int.emod_add_mul_ediv (r - a * x) p
+  have e : -((r - a * x) % p) = (a * x - r) + p * ((r - a * x) / p) := by linarith
+  rw [e, Int.add_mul_emod_self_left]
+
+end floating2
+
+theorem integral_exactOps (k : ICfg) (hv : k.valid) (p : Int) (hp : 2 ≤ p) (hm : p ≤ k.maxCard) :
+    ExactOps (k.ops p) (canonU p) (isCanonU p) where
+  cn_ok x := canonU_isCanon p x (by omega)
+  add a b ha hb := by simp only [ICfg.ops]; rw [integral_add_exact k hv p a b hp hm ha hb]
+  sub a b ha hb := by simp only [ICfg.ops]; rw [integral_sub_exact k hv p a b hp hm ha hb]
+  mul a b ha hb := by simp only [ICfg.ops]; rw [integral_mul_exact k hv p a b hp hm ha hb]
+  neg a ha := by simp only [ICfg.ops]; rw [integral_neg_exact k hv p a hp hm ha]
+  axpy a x y ha hx hy := by simp only [ICfg.ops]; rw [integral_axpy_exact k hv p a x y hp hm ha hx hy]
+  axmy a x y ha hx hy := by simp only [ICfg.ops]; rw [integral_axmy_exact k hv p a x y hp hm ha hx hy]
+  maxpy a x y ha hx hy := by simp only [ICfg.ops]; rw [integral_maxpy_exact k hv p a x y hp hm ha hx hy]
+  axpyin r a x hr ha hx := by simp only [ICfg.ops]; rw [integral_axpy_exact k hv p a x r hp hm ha hx hr]
+  axmyin r a x hr ha hx := by simp only [ICfg.ops]; rw [integral_axmy_exact k hv p a x r hp hm ha hx hr]
+  maxpyin r a x hr ha hx := by simp only [ICfg.ops]; rw [integral_maxpy_exact k hv p a x r hp hm ha hx hr]
+  addin r a hr ha := by simp only [ICfg.ops]; rw [integral_add_exact k hv p r a hp hm hr ha]
+  subin r a hr ha := by simp only [ICfg.ops]; rw [integral_sub_exact k hv p r a hp hm hr ha]
+  mulin r a hr ha := by simp only [ICfg.ops]; rw [integral_mul_exact k hv p r a hp hm hr ha]
+  negin r hr := by simp only [ICfg.ops]; rw [integral_neg_exact k hv p r hp hm hr]
+
+/-- **history theorem**, `Modular<intN_t|uintN_t[,uint2N_t]>` (all 16 configurations): every program -/
+theorem integral_history_exact (k : ICfg) (hv : k.valid) (p : Int) (hp : 2 ≤ p) (hm : p ≤ k.maxCard)
+    (prog : List Instr) (r : Regs) (hr : ∀ i, isCanonU p (r i)) :
+    (k.ops p).run prog r = some (runZ (canonU p) prog r) ∧ ∀ i, isCanonU p (runZ (canonU p) prog r i) :=
+  run_exact (integral_exactOps k hv p hp hm) prog r hr
+example : ((ICfg.mk 32 false 64).ops 4294967295).run [.mul 2 0 1, .axpyin 2 0 0, .maxpyin 0 2 2, .negin 0]
+      ⟨4294967294, 4294967293, 0, 5⟩
+    = some (runZ (canonU 4294967295) [.mul 2 0 1, .axpyin 2 0 0, .maxpyin 0 2 2, .negin 0] ⟨4294967294, 4294967293, 0, 5⟩) := by
+  decide
+
+theorem float_exactOps (k : FCfg) (hv : k.valid) (p : Int) (hp : 2 ≤ p) (hm : p ≤ k.maxCard) :
+    ExactOps (k.ops p) (canonU p) (isCanonU p) where
+  cn_ok x := canonU_isCanon p x (by omega)
+  add a b ha hb := float_add_exact k hv p a b hp hm ha hb
+  sub a b ha hb := float_sub_exact k hv p a b hp hm ha hb
+  mul a b ha hb := float_mul_exact k hv p a b hp hm ha hb
+  neg a ha := float_neg_exact k hv p a hp hm ha
+  axpy a x y ha hx hy := float_axpy_exact k hv p a x y hp hm ha hx hy
+  axmy a x y ha hx hy := float_axmy_exact k hv p a x y hp hm ha hx hy
+  maxpy a x y ha hx hy := float_maxpy_exact k hv p a x y hp hm ha hx hy
+  axpyin r a x hr ha hx := float_axpy_exact k hv p a x r hp hm ha hx hr
+  axmyin r a x hr ha hx := float_axmyin_exact k hv p r a x hp hm hr ha hx
+  maxpyin r a x hr ha hx := float_maxpyin_exact k hv p r a x hp hm hr ha hx
+  addin r a hr ha := float_add_exact k hv p r a hp hm hr ha
+  subin r a hr ha := float_sub_exact k hv p r a hp hm hr ha
+  mulin r a hr ha := float_mul_exact k hv p r a hp hm hr ha
+  negin r hr := float_neg_exact k hv p r hp hm hr
+
+/-- **history theorem**, `Modular<float>`, `Modular<double>`, `Modular<float,double>`: no rounding ever
+    becomes observable, whatever the length of the computation (`some`) -/
+theorem float_history_exact (k : FCfg) (hv : k.valid) (p : Int) (hp : 2 ≤ p) (hm : p ≤ k.maxCard)
+    (prog : List Instr) (r : Regs) (hr : ∀ i, isCanonU p (r i)) :
+    (k.ops p).run prog r = some (runZ (canonU p) prog r) ∧ ∀ i, isCanonU p (runZ (canonU p) prog r i) :=
+  run_exact (float_exactOps k hv p hp hm) prog r hr
+
+theorem balanced_float_exactOps (k : BFCfg) (hv : k.valid) (p : Int) (hp : 3 ≤ p) (hm : p ≤ k.maxCard) :
+    ExactOps (k.ops p) (canonB p) (isCanonB p) where
+  cn_ok x := canonB_isCanon p x (by omega)
+  add a b ha hb := (balanced_float_add_sub_exact k hv p a b hp hm ha hb).1
+  sub a b ha hb := (balanced_float_add_sub_exact k hv p a b hp hm ha hb).2
+  mul a b ha hb := balanced_float_mul_exact k hv p a b hp hm ha hb
+  neg a ha := balanced_float_neg_exact k hv p a hp hm ha
+  axpy a x y ha hx hy := (balanced_float_axpy_exact k hv p a x y hp hm ha hx hy).1
+  axmy a x y ha hx hy := (balanced_float_axpy_exact k hv p a x y hp hm ha hx hy).2.1
+  maxpy a x y ha hx hy := (balanced_float_axpy_exact k hv p a x y hp hm ha hx hy).2.2
+  axpyin r a x hr ha hx := (balanced_float_axpy_exact k hv p a x r hp hm ha hx hr).1
+  axmyin r a x hr ha hx := (balanced_float_axpy_exact k hv p a x r hp hm ha hx hr).2.1
+  maxpyin r a x hr ha hx := (balanced_float_axpy_exact k hv p a x r hp hm ha hx hr).2.2
+  addin r a hr ha := (balanced_float_add_sub_exact k hv p r a hp hm hr ha).1
+  subin r a hr ha := (balanced_float_add_sub_exact k hv p r a hp hm hr ha).2
+  mulin r a hr ha := balanced_float_mul_exact k hv p r a hp hm hr ha
+  negin r hr := balanced_float_neg_exact k hv p r hp hm hr
+
+/-- **history theorem**, `ModularBalanced<float|double>` -/
+theorem balanced_float_history_exact (k : BFCfg) (hv : k.valid) (p : Int) (hp : 3 ≤ p) (hm : p ≤ k.maxCard)
+    (prog : List Instr) (r : Regs) (hr : ∀ i, isCanonB p (r i)) :
+    (k.ops p).run prog r = some (runZ (canonB p) prog r) ∧ ∀ i, isCanonB p (runZ (canonB p) prog r i) :=
+  run_exact (balanced_float_exactOps k hv p hp hm) prog r hr
+
+/-- the quotient estimates of `ModularBalanced<intN_t>` are within 3/2 of the true quotient on canonical operands
+    (what `balanced_int_fma_exact_partial` needs; validated by correspondence with the soft-float model) -/
+def QClose (p : Int) : Prop :=
+  ∀ a b c, isCanonB p a → isCanonB p b → isCanonB p c →
+    (p / 2 - p + 1 - p ≤ a * b + 0 - BICfg.qMul p a b * p ∧ a * b + 0 - BICfg.qMul p a b * p ≤ p / 2 + p)
+    ∧ (p / 2 - p + 1 - p ≤ a * b + c - BICfg.qAxpy p a b c * p ∧ a * b + c - BICfg.qAxpy p a b c * p ≤ p / 2 + p)
+    ∧ (p / 2 - p + 1 - p ≤ a * b + -c - BICfg.qAxpy p a b (-c) * p ∧ a * b + -c - BICfg.qAxpy p a b (-c) * p ≤ p / 2 + p)
+
+theorem balanced_int_add_sub_exact (k : BICfg) (hv : k.valid) (p a b : Int) (hp : 3 ≤ p) (hm : p ≤ k.maxCard)
+    (ha : isCanonB p a) (hb : isCanonB p b) :
+    k.add p a b = canonB p (a + b) ∧ k.sub p a b = canonB p (a - b) := by
+  unfold isCanonB at ha hb
+  have e : ∀ x, -p ≤ x → x ≤ p → k.wr x = x := by
+    intro x hx0 hx1
+    obtain ⟨w⟩ := k
+    simp only [BICfg.valid] at hv
+    rcases hv with h | h <;> subst h <;> simp only [BICfg.maxCard] at hm <;> norm_num at hm <;>
+      simp only [BICfg.wr, wrapSw] <;> norm_num <;> omega
+  unfold BICfg.add BICfg.sub
+  rw [e _ (by omega) (by omega), e _ (by omega) (by omega)]
+  exact ⟨normB_canon (by omega) (by omega) (by omega), normB_canon (by omega) (by omega) (by omega)⟩
+
+theorem balanced_int_exactOps_partial (k : BICfg) (hv : k.valid) (p : Int) (hp : 3 ≤ p) (hm : p ≤ k.maxCard)
+    (hq : QClose p) : ExactOps (k.ops p) (canonB p) (isCanonB p) := by
+  have hz : isCanonB p 0 := by unfold isCanonB; omega
+  have hmul : ∀ a b, isCanonB p a → isCanonB p b → k.mul p a b = canonB p (a * b) := by
+    intro a b ha hb
+    have := (hq a b 0 ha hb hz).1
+    unfold BICfg.mul
+    rw [balanced_int_fma_exact_partial k hv p _ a b 0 hp this.1 this.2 hm]; simp
+  have haxpy : ∀ a x y, isCanonB p a → isCanonB p x → isCanonB p y → k.axpy p a x y = canonB p (a * x + y) := by
+    intro a x y ha hx hy
+    have := (hq a x y ha hx hy).2.1
+    unfold BICfg.axpy
+    exact balanced_int_fma_exact_partial k hv p _ a x y hp this.1 this.2 hm
+  have haxmy : ∀ a x y, isCanonB p a → isCanonB p x → isCanonB p y → k.axmy p a x y = canonB p (a * x - y) := by
+    intro a x y ha hx hy
+    have := (hq a x y ha hx hy).2.2
+    unfold BICfg.axmy
+    rw [balanced_int_fma_exact_partial k hv p _ a x (-y) hp this.1 this.2 hm]; rfl
+  have hmaxpy : ∀ a x y, isCanonB p a → isCanonB p x → isCanonB p y → k.maxpy p a x y = canonB p (y - a * x) := by
+    intro a x y ha hx hy
+    unfold BICfg.maxpy
+    rw [haxmy a x y ha hx hy, balanced_int_neg_exact k hv p _ hp hm (canonB_isCanon p _ (by omega))]
+    apply Givaro.Model.ModRing.canonB_congr
+    have h := canonB_congr p (a * x - y)
+    have h2 := Int.dvd_of_emod_eq_zero h
+    apply Int.emod_eq_emod_iff_emod_sub_eq_zero.2
+    apply Int.emod_eq_zero_of_dvd
+    have e : -canonB p (a * x - y) - (y - a * x) = -(canonB p (a * x - y) - (a * x - y)) := by ring
+    rw [e]; exact (Int.dvd_neg).2 h2
+  exact {
+    cn_ok := fun x => canonB_isCanon p x (by omega)
+    add := fun a b ha hb => by simp only [BICfg.ops]; rw [(balanced_int_add_sub_exact k hv p a b hp hm ha hb).1]
+    sub := fun a b ha hb => by simp only [BICfg.ops]; rw [(balanced_int_add_sub_exact k hv p a b hp hm ha hb).2]
+    mul := fun a b ha hb => by simp only [BICfg.ops]; rw [hmul a b ha hb]
+    neg := fun a ha => by simp only [BICfg.ops]; rw [balanced_int_neg_exact k hv p a hp hm ha]
+    axpy := fun a x y ha hx hy => by simp only [BICfg.ops]; rw [haxpy a x y ha hx hy]
+    axmy := fun a x y ha hx hy => by simp only [BICfg.ops]; rw [haxmy a x y ha hx hy]
+    maxpy := fun a x y ha hx hy => by simp only [BICfg.ops]; rw [hmaxpy a x y ha hx hy]
+    axpyin := fun r a x hr ha hx => by simp only [BICfg.ops]; rw [haxpy a x r ha hx hr]
+    axmyin := fun r a x hr ha hx => by simp only [BICfg.ops]; rw [haxmy a x r ha hx hr]
+    maxpyin := fun r a x hr ha hx => by simp only [BICfg.ops]; rw [hmaxpy a x r ha hx hr]
+    addin := fun r a hr ha => by simp only [BICfg.ops]; rw [(balanced_int_add_sub_exact k hv p r a hp hm hr ha).1]
+    subin := fun r a hr ha => by simp only [BICfg.ops]; rw [(balanced_int_add_sub_exact k hv p r a hp hm hr ha).2]
+    mulin := fun r a hr ha => by simp only [BICfg.ops]; rw [hmul r a hr ha]
+    negin := fun r hr => by simp only [BICfg.ops]; rw [balanced_int_neg_exact k hv p r hp hm hr] }
+
+/-- **history theorem**, `ModularBalanced<int32_t|int64_t>`, under the closeness of the floating quotient estimate
+    (full statement: the same without `hq`; `QClose p` for the IEEE estimate is tied by correspondence only) -/
+theorem balanced_int_history_exact_partial (k : BICfg) (hv : k.valid) (p : Int) (hp : 3 ≤ p) (hm : p ≤ k.maxCard)
+    (hq : QClose p) (prog : List Instr) (r : Regs) (hr : ∀ i, isCanonB p (r i)) :
+    (k.ops p).run prog r = some (runZ (canonB p) prog r) ∧ ∀ i, isCanonB p (runZ (canonB p) prog r i) :=
+  run_exact (balanced_int_exactOps_partial k hv p hp hm hq) prog r hr
 
 end Givaro.Props.C03
